@@ -19,7 +19,14 @@ RULE = ("each case of C01/C02/C03/C04/C05/C08/C09/C10/C11/C14/C15's generators i
 
 POOL = ["t", "e", "r", "c", "l", "n", "f", "i", "o", "g", "h", "u", "T", "E", "Xcenter", "centerX", "left_x", "x_left", "inner1",
         "router", "cent", "cente", "Center", "LEFT", "rightmost", "x", "xx", "xxx", "x_c", "x_cc", "X", "Xc", "XC", "abcdefghijkl",
-        "lon", "lonG", "lat", "depth", "remapped", "temp_unique", "temp_dim_target", "ydummy", "y", "dummy", "outer_", "a", "aa", "z9"]
+        "lon", "lonG", "lat", "depth", "remapped", "temp_unique", "temp_dim_target", "ydummy", "y", "dummy", "outer_", "a", "aa", "z9",
+        # names of keyword arguments of the xarray / numpy / dask methods a dimension name could be splatted into
+        "drop", "indexers", "missing_dims", "new_name_or_name_dict", "dim", "axis", "name", "data", "other", "keep_attrs",
+        "kwargs", "self", "mode", "pad_width", "constant_values", "chunks", "coords", "dims", "variable", "skipna", "fill_value",
+        "boundary", "to", "func", "da", "grid"]
+# keyword names of DataArray.isel: xarray itself cannot take a dimension of such a name through squeeze()/isel(**...),
+# so they are left out for the face-connected families (whose assembly squeezes strips), not a matter of xgcm
+XARRAY_RESERVED = ("self", "drop", "indexers", "missing_dims")
 TOKEN = re.compile(r"^(a|d|v|m)\d+$")
 
 
@@ -115,7 +122,7 @@ def gen_jobs(rng, per_family):
                 names = dict(zip(C08_TOKENS, rng.sample([n for n in POOL], len(C08_TOKENS))))
             else:
                 toks = tokens_of(case, set())
-                names = renaming(rng, toks)
+                names = renaming(rng, toks, avoid=XARRAY_RESERVED if fam in ("c03", "c04", "c05") else ())
                 if fam == "c11":
                     used = set(names.values())
                     dm = rng.sample([n for n in POOL if n not in used], 3)
